@@ -824,10 +824,6 @@ def c03_classify(cat, text, cfg):
         key = "use-xy-length-shape-dropped"
     elif cat == "shape-missing" and "use-len-inherited" in F:
         key = "svg-xy-length-inherited-by-use-shape-dropped"
-    elif cat in ("shape-missing", "shape-list") and "svg-zero-size-viewbox" in F:
-        key = "nested-svg-zero-size-aborts-parse"
-    elif cat in ("shape-extra", "shape-list") and "svg-zero-size-noviewbox" in F:
-        key = "nested-svg-zero-size-rendered"
     elif cat == "geometry":
         if "circle-r-pct" in F:
             key = "circle-r-percent"
@@ -1111,7 +1107,12 @@ def shape_records(mod, svg, render=None):
         if render is not None:
             q = _copy.copy(s)
             q.render(**render)
-        out.append({"kind": type(s).__name__, "id": s.id, "outline": lib_outline(mod, q),
+        kind = type(s).__name__
+        if kind == "Circle":
+            # a Circle object holds two radii; once they differ (reified non-uniform scale) only an ellipse element
+            # can express it, so circle and ellipse count as one kind here - the outline comparison decides
+            kind = "Ellipse"
+        out.append({"kind": kind, "id": s.id, "outline": lib_outline(mod, q),
                     "fill": _paint(q.fill, BLACK), "stroke": _paint(q.stroke, None),
                     "stroke_width": q.implicit_stroke_width, "has_stroke": q.stroke is not None,
                     "local": _local_scale(mod, q), "det": abs(q.transform.determinant),
@@ -1177,11 +1178,8 @@ def tree_shape_features(mod, root):
 
 
 _DIRECT_KEYS = (("under-nested-svg-with-outer-viewbox", "nested-svg-write-drops-outer-viewport"),
-                ("under-use-with-transform", "use-written-with-own-transform"),
                 ("svg-viewbox-unresolved-size", "built-svg-viewbox-unresolved-size"),
-                ("circle-unequal-radii", "circle-unequal-radii-written-as-r"),
-                ("rect-unclamped-radius", "rect-unclamped-radius-not-roundtripped"),
-                ("stale-zero-attribute", "stale-attribute-written-for-zero-value"))
+                ("rect-unclamped-radius", "rect-unclamped-radius-not-roundtripped"))
 
 
 def c20_direct(f, inp=None, cfg=None):
@@ -1659,9 +1657,7 @@ def c20_classify(cat, inp, cfg):
     built = isinstance(inp, dict)
     F = spec_features(inp["spec"]) if built else doc_features(inp)
     key = None
-    if cat.endswith("svgz-unreadable"):
-        key = "svgz-write-truncated"
-    elif cat == "not-well-formed" and (cfg or {}).get("xlink_registered") and not built and "xlink-href" in F:
+    if cat == "not-well-formed" and (cfg or {}).get("xlink_registered") and not built and "xlink-href" in F:
         key = "xlink-prefix-registered-duplicate-xmlns"
     elif cat.startswith("exception-ZeroDivisionError@write") and "svg-zero-size" in F:
         key = "zero-size-svg-write-ZeroDivisionError"
@@ -1669,19 +1665,11 @@ def c20_classify(cat, inp, cfg):
         if built:
             if "svg-viewBox" in F and "svg-full-numeric-size" not in F:
                 key = "built-svg-viewbox-unresolved-size"
-            elif "Circle" in F and "transform:scale" in F:
-                key = "circle-unequal-radii-written-as-r"
         else:
             if "nested-svg" in F and "any-viewBox" in F:
                 key = "nested-svg-write-drops-outer-viewport"
-            elif "use" in F:
-                key = "use-written-with-own-transform"
-            elif "circle" in F and ("circle-r-pct" in F or "nonuniform" in F):
-                key = "circle-unequal-radii-written-as-r"
             elif "rect-radius-deferred-length" in F:
                 key = "rect-unclamped-radius-not-roundtripped"
-            elif cat == "geometry" and ("transform" in F or (cfg or {}).get("transform")):
-                key = "stale-attribute-written-for-zero-value"
     if key is None:
         sig = ("built:" + spec_signature(inp["spec"])) if built else signature(inp, cfg)
         return "C20-%s:%s" % (cat, sig), None
